@@ -109,6 +109,13 @@ class Routing:
             t, op, out, ser = log.script[self.n_script]
             self.n_script += 1
             script_op = op
+            if op['op'] == 'new_collected':
+                # the sinks were given fresh lists: what arrives from now on is collected there, in arrival order;
+                # the lists set aside keep what they held
+                for k in self.sink_order:
+                    if m.devs[k]._collect_parts:
+                        self.sink_order[k] = []
+                ctx.count('fresh_collected_lists')
             if op['op'] == 'rewire':
                 rewired.add(op['target'])
                 if out == 'added':
@@ -207,6 +214,11 @@ class Routing:
                                f'arrival order {[p.name for p in order][-5:]}')
                     return
                 ctx.count('collected_lists_checked')
+        for dev, lst, snap in getattr(m.world, 'set_aside', []) if hasattr(m, 'world') else []:
+            if len(lst) != len(snap) or any(a is not b for a, b in zip(lst, snap)):
+                ctx.report('collected_order', f'sink {dev.name}: the list of collected parts the user set aside (it held '
+                           f'{len(snap)} parts) has changed since: {[p.name for p in lst][-5:]}')
+                return
         # 3. idle-longest among parallel plain single-slot candidates
         if prev is not None:
             self.idle_longest(env, received_now, prev, cen, rewired)
